@@ -5,7 +5,7 @@ import itertools
 
 from ..program import AnalysisError, walk_local, dotted
 from ..analysis import Spec, src, const_value
-from ..rules import (cond_tree, string_template, GWF, EXC, mpt, need_func, stores_to, raise_class,
+from ..rules import (substitute_locals, cond_tree, string_template, GWF, EXC, mpt, need_func, stores_to, raise_class,
                      parent_map, kw, is_const, eval_atom, UNKNOWN)
 from . import common, gitcmds
 from .c07 import _explore
@@ -205,9 +205,9 @@ def refspecs(prog, an, rep):
              if isinstance(x, ast.Call) and isinstance(x.func, ast.Attribute)
              and x.func.attr == 'join']
     ok = False
-    if len(joins) == 1 and joins[0].args and isinstance(
-            joins[0].args[0], (ast.GeneratorExp, ast.ListComp)):
-        comp = joins[0].args[0]
+    comp = substitute_locals(g, joins[0].args[0]) \
+        if len(joins) == 1 and joins[0].args else None
+    if isinstance(comp, (ast.GeneratorExp, ast.ListComp)):
         t = string_template(comp.elt)
         # each element is '<name>' (quoted), no +/: prefix, no filter
         ok = t is not None and t[0] == "'{}'" and len(t[1]) == 1 and \
